@@ -20,6 +20,8 @@ from .. import fsa_common as fc
 
 LTS = None       # state key -> list of (act, to_key)
 BUILDS = None
+OPS = None       # (vs, E) -> prepared FSAOps table; when set, the C10 battery runs on every new concrete state
+OPS_LABELS = None
 
 
 def act_str(a):
@@ -50,6 +52,20 @@ def step(obj, act, to_key):
     return obj, None
 
 
+def ops_check(obj, key):
+    if OPS is None:
+        return None
+    from .. import fsa_ops
+    t = OPS.get((key[0], key[1]))
+    if t is None:
+        raise core.MachineryFailure("no FSAOps table for state %r" % (key,))
+    try:
+        return fsa_ops.ops_battery(obj, t, OPS_LABELS)
+    except Exception as e:
+        import traceback
+        return ("raised:ops", "%s: %s @ %s" % (type(e).__name__, e, traceback.format_exc().splitlines()[-3].strip()))
+
+
 def explore_chunk(args):
     chunk, depth, max_viol = args
     visited = set()
@@ -65,8 +81,14 @@ def explore_chunk(args):
         if bad:
             viol.append(([act_str(act0)], bad))
             continue
+        fp0 = (to0, fc.fingerprint(obj))
+        if fp0 not in visited:
+            bad = ops_check(obj, to0)
+            if bad:
+                viol.append(([act_str(act0), "ops"], bad))
+                continue
         frontier = [(to0, obj, (act_str(act0),))]
-        visited.add((to0, fc.fingerprint(obj)))
+        visited.add(fp0)
         for d in range(depth):
             nxt = []
             for (sk, o, hist) in frontier:
@@ -85,6 +107,11 @@ def explore_chunk(args):
                     if fp in visited:
                         continue
                     visited.add(fp)
+                    bad = ops_check(o2, tk)
+                    if bad:
+                        if len(viol) < max_viol:
+                            viol.append((list(h2) + ["ops"], bad))
+                        continue
                     if len(samples) < 2 and d == depth - 1:
                         samples.append(list(h2))
                     nxt.append((tk, o2, h2))
@@ -111,8 +138,9 @@ def run_lts(run, verts, labels, max_build, workers):
     return r, lts, builds
 
 
-def product(run, verts, labels, max_build, depth, build_sample=None, tag=""):
-    global LTS, BUILDS
+def product(run, verts, labels, max_build, depth, build_sample=None, tag="", ops=None):
+    global LTS, BUILDS, OPS, OPS_LABELS
+    OPS, OPS_LABELS = ops, list(labels)
     r, lts, builds = run_lts(run, verts, labels, max_build, workers=min(8, core.NCPU))
     LTS = lts
     rng = random.Random(run.seed)
